@@ -34,7 +34,9 @@ for u in UNITS:
 
 verus_unit("merklev", "merklev", ["C10"], ["MerkleTree::prove (every tree size / index: Err iff out of range, else the authentication path)",
             "MerkleTree::verify (length check; accepts iff the fold of the path along the index bits equals the root)", "MerkleTree::root",
-            "lemma: verify(root(), i, prove(i)) accepts for every well-formed tree"])
+            "lemma: verify(root(), i, prove(i)) accepts for every well-formed tree",
+            "merkle::build_merkle_nodes (every size: the returned vector is the heap-ordered tree over the leaves - nodes[n/2 + k] == merge(leaves[2k], leaves[2k+1]), nodes[k] == merge(nodes[2k], nodes[2k+1]); the raw-pointer reinterpretation as digest pairs is modelled by two external functions)",
+            "MerkleTree::new (Ok exactly for >= 2 leaves and a power-of-two count; the tree returned is well-formed - the pre-condition of prove / root / the completeness lemma - and holds the given leaves)"])
 
 verus_unit("coinv", "coinv", ["C19", "C04"], [
     "DefaultRandomCoin::next", "DefaultRandomCoin::new", "DefaultRandomCoin::reseed", "DefaultRandomCoin::check_leading_zeros",
